@@ -171,7 +171,7 @@ class Ctx:
 
 class ProgramGen:
     def __init__(self, seed, std="f2003", size=1.0, hostile=True, feature_bias=None,
-                 max_units=3, defined_ops=True):
+                 max_units=3, defined_ops=True, bare_main_multi=False):
         self.r = random.Random(seed)
         self.std = std
         self.size = size
@@ -183,6 +183,8 @@ class ProgramGen:
         self.unit_no = -1
         self.max_units = max_units
         self.f08 = std == "f2008"
+        self.bare_main_multi = bare_main_multi
+        self.n_units = 1
 
     # ------------------------------------------------------------------ emit
     def S(self, kind, text, **kw):
@@ -278,6 +280,7 @@ class ProgramGen:
         for _ in range(n):
             kinds.append(r.choice(["program", "subroutine", "function", "module", "module",
                                    "subroutine", "blockdata"] + (["submodule"] if self.f08 else [])))
+        self.n_units = n
         # at most one main program
         seen_main = False
         for k in kinds:
@@ -305,6 +308,10 @@ class ProgramGen:
         ctx = Ctx("program")
         name = self.env.fresh()
         has_stmt = self.p(0.85)
+        if self.n_units > 1 and not self.bare_main_multi:
+            # a main program without PROGRAM statement next to other units is the
+            # documented "only the main program is output" limitation; C02 owns it
+            has_stmt = True
         cid = self.new_cid()
         if has_stmt:
             self.S("program", "program " + name, cid=cid, role="open", flags={"unit_open"})
@@ -344,10 +351,8 @@ class ProgramGen:
         suffix = ""
         if self.p(0.1) and "elemental" not in pre:
             suffix = " bind(c)" if self.p(0.5) else " bind(c, name = 'c_%s')" % name.lower()
-            if not args and "{-" in arglist:
-                arglist = "()"
-            elif not args:
-                arglist = "()"
+            if not args:
+                arglist = "{-()-}"
         self.S("subroutine", "%ssubroutine %s%s%s" % (pre, name, arglist, suffix), cid=cid,
                role="open", flags={"unit_open"})
         self.depth += 1
@@ -751,7 +756,7 @@ class ProgramGen:
         ent = self.env.procname()
         if "pointer" in attrs and self.p(0.4):
             ent += " => null()"
-        self.S("procdecl", "procedure(%s)%s :: %s" % (iface, attrs, ent))
+        self.S("procdecl", "procedure(%s)%s %s %s" % (iface, attrs, "::" if attrs else "{-::-}", ent))
 
     def st_entry(self, ctx):
         name = self.env.fresh()
@@ -875,7 +880,7 @@ class ProgramGen:
             for _ in range(r.randint(0, 4)):
                 c = r.random()
                 if c < 0.3:
-                    self.S("tbp", "procedure %s%s" % ("{+:: +}" if self.p(0.3) else ":: ", self.env.procname()))
+                    self.S("tbp", "procedure %s%s" % ("" if self.p(0.3) else ":: ", self.env.procname()))
                 elif c < 0.55:
                     a = r.choice(["pass(%s)" % self.env.scalar(), "nopass", "non_overridable", "public" if ctx.in_module else "pass", "pass"])
                     self.S("tbp", "procedure, %s :: %s => %s" % (a, self.env.procname(), self.env.procname()))
